@@ -238,3 +238,18 @@ Section Gradient.
     Definition resample (rows cols : list Z) : list (list (option T)) := assemble rows cols result_block.
   End Blocks.
 End Gradient.
+
+(* ---------------- dask graphs: resample_blocks names its tasks (name, *position); computing several lazy arrays in one
+   dask computation merges their graphs (dict union, first binding kept here) and reads every array's blocks back by key *)
+Definition gkey : Type := (Z * (Z * Z))%type.                       (* (name token, block position) *)
+Definition gkey_eqb (a b : gkey) : bool := (fst a =? fst b) && (fst (snd a) =? fst (snd b)) && (snd (snd a) =? snd (snd b)).
+Fixpoint glookup {V} (g : list (gkey * V)) (k : gkey) : option V :=
+  match g with
+  | [] => None
+  | (k', v) :: r => if gkey_eqb k' k then Some v else glookup r k
+  end.
+(* the graph of one lazy result: one task per block position, all under the array's name *)
+Definition graph_of {V} (name : Z) (blocks : list ((Z * Z) * V)) : list (gkey * V) := map (fun pv => ((name, fst pv), snd pv)) blocks.
+(* the blocks of the array called [name] as read from a (merged) graph *)
+Definition read_array {V} (g : list (gkey * V)) (name : Z) (positions : list (Z * Z)) : list (option V) :=
+  map (fun p => glookup g (name, p)) positions.
